@@ -41,6 +41,9 @@ type gMsg struct {
 var scalarKinds = []string{"i32", "i64", "u32", "u64", "b", "s", "y", "f", "d", "e"}
 var keyKinds = []string{"i32", "i64", "u32", "s", "b"}
 
+// genSchemaWK: like genSchema, but singular / list / map-value fields may also be Timestamp or Duration
+var schemaWithWellKnown bool
+
 func genSchema(r *rand.Rand, depth int) *gMsg {
 	m := &gMsg{}
 	n := 1 + r.Intn(5)
@@ -58,6 +61,8 @@ func genSchema(r *rand.Rand, depth int) *gMsg {
 		if depth > 0 && r.Intn(3) == 0 {
 			f.kind = "m"
 			f.sub = genSchema(r, depth-1)
+		} else if schemaWithWellKnown && r.Intn(4) == 0 {
+			f.kind = []string{"ts", "du"}[r.Intn(2)]
 		} else {
 			f.kind = scalarKinds[r.Intn(len(scalarKinds))]
 			if f.card == 'o' && r.Intn(4) == 0 {
@@ -127,6 +132,7 @@ var kindType = map[string]descriptorpb.FieldDescriptorProto_Type{
 	"y": descriptorpb.FieldDescriptorProto_TYPE_BYTES, "f": descriptorpb.FieldDescriptorProto_TYPE_FLOAT,
 	"d": descriptorpb.FieldDescriptorProto_TYPE_DOUBLE, "e": descriptorpb.FieldDescriptorProto_TYPE_ENUM,
 	"m": descriptorpb.FieldDescriptorProto_TYPE_MESSAGE,
+	"ts": descriptorpb.FieldDescriptorProto_TYPE_MESSAGE, "du": descriptorpb.FieldDescriptorProto_TYPE_MESSAGE,
 }
 
 // buildDescriptor turns a generated schema into a real message descriptor
@@ -151,6 +157,10 @@ func buildDescriptor(m *gMsg) protoreflect.MessageDescriptor {
 				switch kind {
 				case "e":
 					fp.TypeName = proto.String(".verifgen.Color")
+				case "ts":
+					fp.TypeName = proto.String(".google.protobuf.Timestamp")
+				case "du":
+					fp.TypeName = proto.String(".google.protobuf.Duration")
 				case "m":
 					counter++
 					subName := fmt.Sprintf("S%d", counter)
@@ -215,7 +225,7 @@ func buildDescriptor(m *gMsg) protoreflect.MessageDescriptor {
 	fix(root, ".verifgen.Root")
 	fdp := &descriptorpb.FileDescriptorProto{
 		Name: proto.String("verif_gen.proto"), Package: proto.String("verifgen"), Syntax: proto.String("proto3"),
-		Dependency:  []string{"tableau/protobuf/tableau.proto"},
+		Dependency:  []string{"tableau/protobuf/tableau.proto", "google/protobuf/timestamp.proto", "google/protobuf/duration.proto"},
 		MessageType: []*descriptorpb.DescriptorProto{root},
 		EnumType: []*descriptorpb.EnumDescriptorProto{{Name: proto.String("Color"), Value: []*descriptorpb.EnumValueDescriptorProto{
 			{Name: proto.String("COLOR_UNKNOWN"), Number: proto.Int32(0)}, {Name: proto.String("COLOR_RED"), Number: proto.Int32(1)},
@@ -230,7 +240,33 @@ func buildDescriptor(m *gMsg) protoreflect.MessageDescriptor {
 
 // ---- values -----------------------------------------------------------------
 
-var strPool = []string{"", "a", "b", "ab", "hello", " ", "a  b", "\x00", "ÿ", "值", "x\ny", "2021-01-01T00:00:00Z", "zz"}
+var strPool = []string{"", "a", "b", "ab", "hello", " ", "a  b", "\x00", "ÿ", "值", "x\ny", "2021-01-01T00:00:00Z", "zz", "a\u3000b", " lead", "trail ", "tab\there", "q\"uote", "back\\slash", "1970-01-01T00:00:00+08:00"}
+
+// genWellKnown builds a Timestamp / Duration value of the given message descriptor
+func genWellKnown(r *rand.Rand, kind string, md protoreflect.MessageDescriptor) protoreflect.Value {
+	m := dynamicpb.NewMessage(md)
+	var secs int64
+	var nanos int32
+	if kind == "ts" {
+		secs = []int64{0, 1, 1640995200, 1582979696, -1, 951782400, 1700000000, 2000000000, -600000000}[r.Intn(9)] // 1950 … 2033: inside the zone tables; local-mean-time eras and year 0001/9999 edges are outside the statement
+		nanos = []int32{0, 0, 500000000, 1, 999999999, 10000000}[r.Intn(6)]
+	} else {
+		secs = []int64{0, 1, 3600, 86399, -5, 315576000000}[r.Intn(6)]
+		nanos = []int32{0, 0, 500000000, 1}[r.Intn(4)]
+		if secs < 0 {
+			nanos = -nanos
+		}
+	}
+	if secs != 0 {
+		m.Set(md.Fields().ByName("seconds"), protoreflect.ValueOfInt64(secs))
+	}
+	if nanos != 0 {
+		m.Set(md.Fields().ByName("nanos"), protoreflect.ValueOfInt32(nanos))
+	}
+	return protoreflect.ValueOfMessage(m)
+}
+
+func isWK(kind string) bool { return kind == "ts" || kind == "du" }
 
 func genScalar(r *rand.Rand, kind string, nonzero bool) protoreflect.Value {
 	for {
@@ -287,7 +323,9 @@ func genMessage(r *rand.Rand, m *gMsg, md protoreflect.MessageDescriptor, densit
 		fd := md.Fields().ByNumber(protoreflect.FieldNumber(f.num))
 		switch f.card {
 		case 'o':
-			if f.kind == "m" {
+			if isWK(f.kind) {
+				msg.Set(fd, genWellKnown(r, f.kind, fd.Message()))
+			} else if f.kind == "m" {
 				sub := genMessage(r, f.sub, fd.Message(), density)
 				msg.Set(fd, protoreflect.ValueOfMessage(sub))
 			} else {
@@ -297,7 +335,9 @@ func genMessage(r *rand.Rand, m *gMsg, md protoreflect.MessageDescriptor, densit
 			l := msg.Mutable(fd).List()
 			n := 1 + r.Intn(3)
 			for i := 0; i < n; i++ {
-				if f.kind == "m" {
+				if isWK(f.kind) {
+					l.Append(genWellKnown(r, f.kind, fd.Message()))
+				} else if f.kind == "m" {
 					l.Append(protoreflect.ValueOfMessage(genMessage(r, f.sub, fd.Message(), density)))
 				} else {
 					l.Append(genScalar(r, f.kind, false))
@@ -308,7 +348,9 @@ func genMessage(r *rand.Rand, m *gMsg, md protoreflect.MessageDescriptor, densit
 			n := 1 + r.Intn(3)
 			for i := 0; i < n; i++ {
 				k := genScalar(r, f.keyKind, false).MapKey()
-				if f.kind == "m" {
+				if isWK(f.kind) {
+					mp.Set(k, genWellKnown(r, f.kind, fd.MapValue().Message()))
+				} else if f.kind == "m" {
 					mp.Set(k, protoreflect.ValueOfMessage(genMessage(r, f.sub, fd.MapValue().Message(), density)))
 				} else {
 					mp.Set(k, genScalar(r, f.kind, false))
